@@ -861,6 +861,17 @@ def call_method(interp, recv, name, args, kwargs):
                 from . import mlist
                 return mlist.split_all(interp, t, sep)
             from .api import ListOf, Str as _Str
+            if len(sep) == 1 and interp.st.ghost.get('__exact_split__'):
+                # opt-in of a sidecar module (`M.exact_split = True`): exact for at most one separator --
+                # no occurrence: [s]; one occurrence: [a, b] with s == a . sep . b (the pieces of split(sep, 1))
+                f = count_fn(interp, sep)
+                _count_facts(interp, f, sep, t)
+                if interp.st.fork(wrap(f(t) == 0)):
+                    return [recv]
+                if interp.st.fork(wrap(f(t) == 1)):
+                    found, a, b = _split_once(interp, recv, sep)
+                    if found:
+                        return [a, b]       # (else: infeasible; the weak model below is sound anyway)
             out = ListOf(_Str, min_len=1).make(interp, 'split')
             if len(sep) == 1:
                 f = count_fn(interp, sep)
@@ -955,6 +966,11 @@ def call_method(interp, recv, name, args, kwargs):
     if name == 'splitlines' and (list(args) == [True] or (not args and kwargs == {'keepends': True})):
         from . import textio
         return textio.splitlines_keepends(interp, recv)
+    if name in ('splitlines',) and not args and not kwargs and interp.st.ghost.get('__weak_splitlines__'):
+        # opt-in of a sidecar module (`M.weak_splitlines = True`): s.splitlines() is SOME list of strings
+        # (weak but sound; for code that only passes the lines on, e.g. into a source-location record)
+        from .api import ListOf, Str as _Str
+        return ListOf(_Str).make(interp, 'splitlines')
     if name in ('splitlines',):
         raise Unsupported('str.splitlines on symbolic string (give the function a contract / model)')
     if name in ('removeprefix', 'removesuffix'):
